@@ -295,6 +295,13 @@ def documents(thorough):
         for n2 in ns_forms:
             pre = "p:" if (n1[0] == "present" and is_tuple(n1[1]) and dict(map(tuple, n1[1]["t"])).get("prefix") == "p") else ""
             yield "namespaces", doc(elem(pre + "r", ns=n1, children=P(L(elem(pre + "c", ns=n2), elem("d")))))
+    # namespace URIs are attribute values too: the XML-significant strings as default and as prefixed namespace
+    for i, u in enumerate(TEXTS):
+        if not u.strip():
+            continue
+        yield "ns-uri-default|%d" % i, doc(elem("r", ns=P(u), children=P(L(elem("c")))))
+        yield "ns-uri-prefixed|%d" % i, doc(elem("p:r", ns=P(T(("prefix", "p"), ("uri", u))), children=P(L(elem("p:c")))))
+        yield "ns-uri-child|%d" % i, doc(elem("r", children=P(L(elem("c", ns=P(u)), "t"))))
     # declaration
     for v in [("absent",), P("1.0"), P("1.1"), P("2.0"), P("1"), P(None), P({"i": "1"})]:
         for e in [("absent",), P("utf-8"), P("UTF-8")]:
@@ -415,7 +422,7 @@ def run(ctx):
     ctx.rule = ("document tuples: every node-shape tree to depth %d (element / bare string / {text=} leaves, children absent / NULL / [] / 1..2 "
                 "nodes) as root, under a root and between siblings; %d XML-significant strings as text in 6 positions x 2 text forms and as "
                 "attribute values in 3 positions; 8 attribute sets x 4 children forms; 5 name forms; 7 x 7 namespace forms on parent and child; "
-                "7 x 3 x 4 declaration options; 16 malformed node kinds at 3 depths + 6 malformed documents; every order of the fields of a full element "
+                "the same strings as namespace URI in 3 positions; 7 x 3 x 4 declaration options; 16 malformed node kinds at 3 depths + 6 malformed documents; every order of the fields of a full element "
                 "(24, as root and as child), of 10 field sets that mix name/text/attrs/children validly and invalidly (at 3 depths) and of the "
                 "document's own fields (24). All distinct; non-trivial = the "
                 "converter answered and the answer was judged." % (3 if thorough else 2, len(TEXTS)))
@@ -432,6 +439,12 @@ def run(ctx):
     for cls, w, oc, detail in viol:
         if cls.startswith(("malformed", "field-order-")):
             sig = "%s:%s" % (oc, cls)
+        elif cls.startswith("ns-uri"):
+            s = TEXTS[int(cls.split("|")[1])]
+            feat = text_feature(s)
+            if feat == "other":
+                feat = "+".join(n for ch, n in (("&", "amp"), ("<", "lt"), (">", "gt"), ('"', "quot"), ("'", "apos")) if ch in s) or "other"
+            sig = "%s:ns-uri:%s" % (oc, feat)
         elif cls.startswith(("text", "attr-value")):
             s = TEXTS[int(cls.split("|")[1])]
             sig = "%s:%s:%s" % (oc, "attr-value" if cls.startswith("attr-value") else "text", text_feature(s))
